@@ -73,7 +73,14 @@ pub fn run_one(
             let integ = if profile.name == "INTEG" { crate::actors_integ::setup(&mut sim, &mut ctx) } else { None };
             for _ in 0..steps {
                 match (&integ, profile.name) {
-                    (Some(st), _) if ctx.rng.chance(1, 2) => crate::actors_integ::step(&mut sim, &mut ctx, st),
+                    (Some(st), _) => {
+                        crate::actors_integ::pre_step(&mut sim, &mut ctx, st);
+                        match ctx.rng.below(8) {
+                            0..=2 => crate::actors_integ::step(&mut sim, &mut ctx, st),
+                            3 => crate::actors_integ::borrow_step(&mut sim, &mut ctx, st),
+                            _ => actors::step_mkt(&mut sim, &mut ctx),
+                        }
+                    }
                     _ => actors::step_mkt(&mut sim, &mut ctx),
                 }
                 // move known-finding hits aside so the run continues
